@@ -239,11 +239,14 @@ def spectrum_to(case, ctx):
 
 @st.composite
 def planck_case(draw, tier):
-    T = draw(gen.pos_log(50.0, 50000.0))
+    T = draw(gen.pos_log(50.0, 50000.0)) if draw(st.integers(0, 3)) else draw(gen.pos_log(2.7, 1e8))
     n = draw(st.integers(1, 12))
-    # wavelengths around the thermal peak so that exp() neither overflows nor underflows everywhere
+    # wavelengths around the thermal peak so that exp() neither overflows nor underflows everywhere; one case in
+    # four goes far into the Rayleigh-Jeans tail (radio wavelengths: h c / (lambda k T) down to ~1e-9)
     peak = 2.9e-3 / T
-    lam = peak * np.array([draw(gen.pos_log(0.05, 200.0)) for _ in range(n)])
+    far = draw(st.integers(0, 3)) == 0
+    lam = peak * np.array([draw(gen.pos_log(200.0, 5e9)) if far and draw(st.booleans()) else draw(gen.pos_log(0.05, 200.0))
+                           for _ in range(n)])
     return {"T": T, "wave_m": lam, "waveunit": draw(st.sampled_from(["m", "um", "nm", "angstrom"])),
             "valueunit": draw(st.sampled_from(FNAMES)), "scalar": draw(st.booleans())}
 
@@ -273,11 +276,18 @@ def planck(case, ctx):
     M_si = M / SI[wu] * to_w[vu]
     want = planck_si(lam, T, 1.0)
     ok = np.isfinite(want) & (want > 1e-250)
-    if not close(L_si[ok], want[ok], 1e-9):
-        raise Violation("C14.planck.radiance", f"planck_radiance({wu}, {vu}) at T={T:.1f} K is not the SI radiance "
-                                               f"({L_si[ok][:3]} vs {want[ok][:3]})")
-    if not close(M_si[ok], np.pi * want[ok], 1e-9):
-        raise Violation("C14.planck.exitance", f"planck_exitance({wu}, {vu}) is not pi x radiance")
+    # exp(x) - 1 as written in the library loses eps/x (relative) for small x = h c / (lambda k T): that rounding is
+    # allowed for, the reference itself uses expm1
+    xx = rad.H * rad.C / (lam * rad.K * T)
+    ptol = 1e-9 + 16 * np.finfo(float).eps / xx
+    ctx.tag("rayleigh_jeans_tail" if np.any(xx < 1e-6) else None)
+    if np.any(np.abs(L_si[ok] - want[ok]) > ptol[ok] * want[ok]) or np.any(np.abs(M_si[ok] - np.pi * want[ok]) > ptol[ok] * np.pi * want[ok]):
+        bad = "radiance" if np.any(np.abs(L_si[ok] - want[ok]) > ptol[ok] * want[ok]) else "exitance"
+        raise Violation("C14.planck." + bad, f"planck_{bad}({wu}, {vu}) at T={T:.4g} K, wavelengths {lam[ok][:3]} m is not "
+                                             f"the SI {bad} ({(L_si if bad == 'radiance' else M_si / np.pi)[ok][:3]} vs {want[ok][:3]})")
+    # exitance = pi x radiance, sample by sample (the same expression twice: rounding level)
+    if np.any(np.abs(M_si[ok] - np.pi * L_si[ok]) > 1e-12 * np.pi * np.abs(L_si[ok])):
+        raise Violation("C14.planck.exitance", f"planck_exitance({wu}, {vu}) is not pi x planck_radiance")
 
 
 @st.composite
